@@ -54,7 +54,11 @@ def build_init(i):
 # ---------------------------------------------------------------------------
 # menu
 
-INPLACE = {"setitem", "setattr", "delitem", "delattr", "pop", "popitem", "colnames"}
+INPLACE = {"setitem", "setattr", "delitem", "delattr", "pop", "popitem", "colnames", "observe", "poke"}
+
+
+def _same(a, b):
+    return (a is None and b is None) or (a is not None and b is not None and a == b)
 RESHAPE = {"select", "unselect", "rename", "cbind", "update", "modify", "rbind", "colnames", "slice_cols", "slice_off_cols"}
 
 
@@ -161,6 +165,20 @@ def menu(M, seen):
             add({"op": "setitem", "name": nm, "form": "len1"})
         if k >= 1:
             add({"op": "setitem", "name": nm, "form": "wrong"})
+    if k >= 1:
+        # a two-dimensional DataFrameColumn of the right length must be rejected, not stored
+        add({"op": "setitem", "name": "new", "form": "2d"})
+        add({"op": "modify", "name": fresh(M, "m"), "form": "2d"})
+        # observations: call a method, discard the result, keep using the receiver (hidden caches must not matter)
+        add({"op": "observe", "what": "sort", "col": names[0], "dir": 1})
+        add({"op": "observe", "what": "sort", "col": names[-1], "dir": -1})
+        add({"op": "observe", "what": "unique", "col": names[0]})
+        add({"op": "observe", "what": "to_string"})
+        # in-place cell edit through the column (columns are indexed like NumPy arrays)
+        for nm in dict.fromkeys([names[0], names[-1]]):
+            c = M.get(nm)
+            if n >= 2 and not _same(c[0], c[-1]):
+                add({"op": "poke", "col": nm})
     add({"op": "setattr", "name": "attr1", "form": "vector"})
     for nm in names:
         add({"op": "delitem", "name": nm})
@@ -327,6 +345,8 @@ def apply_real(d, M, op):
     if o in ("cbind", "update"):
         p, _ = side_frame(M, op["rows"], o == "update")
         return getattr(d, o)(p), [p]
+    if o == "modify" and op["form"] == "2d":
+        return d.modify(**{op["name"]: dict.__getitem__(d, M.names[0]).reshape(-1, 1)}), []
     if o == "modify":
         if op["form"] == "callable":
             first = M.names[0]
@@ -340,9 +360,24 @@ def apply_real(d, M, op):
     if o == "rename":
         return d.rename(**op["map"]), []
     # in-place
+    if o == "setitem" and op["form"] == "2d":
+        d[op["name"]] = dict.__getitem__(d, M.names[0]).reshape(-1, 1)
+        return d, []
     if o == "setitem":
         val, _ = value_of(op["form"], n if M.ncol else 2, M)
         d[op["name"]] = val
+        return d, []
+    if o == "observe":
+        if op["what"] == "sort":
+            d.sort(**{op["col"]: op["dir"]})
+        elif op["what"] == "unique":
+            d.unique(op["col"])
+        else:
+            d.to_string()
+        return d, []
+    if o == "poke":
+        col = dict.__getitem__(d, op["col"])
+        col[0] = col[len(col) - 1]
         return d, []
     if o == "setattr":
         val, _ = value_of(op["form"], n if M.ncol else 2, M)
@@ -415,6 +450,15 @@ def apply_model(M, op):
     if o == "update":
         _, P = side_frame(M, op["rows"], True)
         return M.update(P), {"unordered": True}
+    if o in ("modify", "setitem") and op.get("form") == "2d":
+        raise Rejected("a column must be one-dimensional")
+    if o == "observe":
+        return M.copy(), flags
+    if o == "poke":
+        M2 = M.copy()
+        c = M2.get(op["col"])
+        c[0] = c[-1]
+        return M2, flags
     if o == "modify":
         if op["form"] == "callable":
             return M.modify(op["name"], M.get(M.names[0])), flags
@@ -439,7 +483,9 @@ def apply_model(M, op):
         return M2, flags
     if o == "colnames":
         M2.set_colnames(op["new"])
-        return M2, {"unordered": True}
+        # a full-length assignment renames positionally, so afterwards colnames is the assigned list;
+        # where the columns of a shorter list end up is not pinned
+        return M2, ({} if len(op["new"]) == M.ncol else {"unordered": True})
     raise ValueError(o)
 
 
@@ -447,7 +493,8 @@ def apply_model(M, op):
 # oracles
 
 def hidden_key(d):
-    return tuple(sorted(k for k in d.__dict__.keys()))
+    cols = tuple(tuple(sorted(getattr(c, "__dict__", {}) or ())) for c in dict.values(d))
+    return (tuple(sorted(k for k in d.__dict__.keys())), cols)
 
 
 def state_key(d, seen):
@@ -456,7 +503,9 @@ def state_key(d, seen):
 
 
 def snapshot(d):
-    return (V.frame_key(d), hidden_key(d))
+    # what "the receiver is unchanged" means: columns, order, dtypes, values, grouping, instance attributes of the
+    # frame; the .str/.dt/.re proxies that vectors cache on themselves are not part of it (but are part of state_key)
+    return (V.frame_key(d), tuple(sorted(k for k in d.__dict__.keys())))
 
 
 def invariants(d, M, seen):
@@ -577,6 +626,10 @@ def step(d, M, seen, op, rec, clauses, case_of):
             rec.violation(o, "raised", case_of(op), f"{type(raised).__name__}: {raised}")
         return None, None, None, inplace or snapshot(d) != before
     dirty = False
+    if o == "observe" and V.frame_key(d) != before[0]:
+        if "C06" in clauses:
+            rec.violation(o, "receiver-changed", case_of(op), f"receiver changed by {op['what']}(), a method documented as returning a new object")
+        return None, None, None, True
     if not inplace:
         if snapshot(d) != before:
             dirty = True
@@ -665,7 +718,7 @@ def explore(init, prefix, depth, rec, clauses, op_filter=None):
             d, M, seen = replay(init, history)
             case_of = case_of_factory(history)
             for op in menu(M, seen):
-                if op_filter and not op_filter(op):
+                if op_filter and not op_filter(level, op):
                     continue
                 if M.ncol + adds_column(op, M) > MAX_COLS or M.nrow + adds_rows(op, M) > MAX_ROWS:
                     rec.pruned += 1
